@@ -7,6 +7,11 @@ var commonStub = []string{"Go scheduler choice (simrt cooperative scheduler, see
 var ingestStub = append([]string{"storage faults: a wrapper around LocalBackend adds latency, injected write failures and (optionally) honours context cancellation like the S3/Azure backends"}, commonStub...)
 
 var props = map[string]propCfg{
+	"C08": {Area: "localfs", Level: "fault_enumeration", Quick: 25 * time.Second, Thorough: 10 * time.Minute,
+		Real:  []string{"internal/storage.LocalBackend (Write, WriteReader, AppendReader, Delete, StatFile, Read, ReadToAt, List, Exists, RemoveDirectory, ListObjects)", "internal/cluster/raft.ValidateManifestPath", "internal/edgesync validateSyncPath / validateSpokeID / NamespacedPath"},
+		Stub:  commonStub,
+		Rule:  "Each generated case is a sequence of 1-4 backend operations with adversarial keys ('..', absolute, NUL, backslash, unicode, long, staging-like names) routed through the validator its real caller applies. The sequence is executed fault-free, then re-executed once per (mutating file-system operation index x {crash-before, crash-after, torn write, EIO, ENOSPC/short write}) - the complete single-fault space of that sequence. evaluations = executions; distinct_nontrivial = distinct fault-free trace hashes of cases with at least one mutating fs operation.",
+		Assume: []string{"two writers racing on the SAME key share one <key>.part staging name; that schedule dimension is outside the property's quantifier (inputs, crash points) and is not judged"}},
 	"C06": {Area: "walfile", Level: "fault_enumeration", Quick: 25 * time.Second, Thorough: 10 * time.Minute,
 		Real:  []string{"internal/wal Writer (all three append forms, rotation) producing the files under the simulator", "internal/wal Reader.ReadAll and Recovery.RecoverWithOptions on every faulted image"},
 		Stub:  commonStub,
